@@ -27,6 +27,7 @@ from fractions import Fraction
 from pathlib import Path
 
 import lib
+from c16 import FsTap, fs_calls_of, fs_calls_of_etag
 
 ALGO = ["sha256", "crc32c", "sha1", "crc32", "crc64nvme"]
 ALGO_KEY = {"sha256": "ChecksumSHA256", "crc32c": "ChecksumCRC32C", "sha1": "ChecksumSHA1",
@@ -104,11 +105,12 @@ def tag_str(t):
 # the world on the implementation side (mirror of Sources.world / apply_ev)
 # --------------------------------------------------------------------------
 class World:
-    def __init__(self, w, path=None):
+    def __init__(self, w, path=None, replace=False):
         st, self.ver, self.fail_etag, self.fail_load, self.head_fail, self.attr_fail, self.versioning, al = w
         self.store = None if st is None else (list(st[0]), st[1])
         self.algos = list(al)
         self.path = path
+        self.replace = replace      # file kind: writes go to a temporary file that is renamed over the policy file
         if path is not None:
             self._sync("write")
 
@@ -151,8 +153,11 @@ class World:
                 os.unlink(self.path)
             return
         if k == "write":
-            with open(self.path, "wb") as f:
+            tgt = self.path + ".new" if self.replace else self.path
+            with open(tgt, "wb") as f:
                 f.write(render(self.store[0]))
+            if self.replace:
+                os.replace(tgt, self.path)
             assert os.stat(self.path).st_size == len(render(self.store[0]))
         ns = self.store[1] * 10 ** 9
         os.utime(self.path, ns=(ns, ns))
@@ -385,6 +390,9 @@ class Probe:
         self.loaded_objs = []    # every object returned by a successful load
         self.mid = None
         self.gate = gate
+        self.at = None           # (call name, k): the pending mid event lands INSIDE that call of the check, right
+        #                          after the k-th file-system call the call makes on the policy file (file kind)
+        self.incall = None       # what happened there
         self.who = lambda: None  # overlapping checks: which check (thread) is making the call
         self.by_who = {}         # check -> its calls
         self.loaded_by = []      # parallel to loaded_objs: the check whose load() returned the object
@@ -406,11 +414,45 @@ class Probe:
             if kind == "ok" and name == "load":
                 probe.loaded_objs.append(val)
                 probe.loaded_by.append(probe.who())
-            if probe.mid is not None:
+            if probe.mid is not None and probe.at is None:
                 ev, probe.mid = probe.mid, None
                 probe.world.apply(ev)
             if probe.gate is not None:
                 probe.gate(name, "exit", kind)
+
+        def run_tapped(name, orig):
+            """the targeted call of the check: the pending event fires after its k-th file-system call on the file."""
+            k = probe.at[1]
+            probe.at = None
+            rec = {"call": name, "k": k, "pre": probe.world.content(), "post": None, "fired": False, "raised": False}
+
+            def fire():
+                ev, probe.mid = probe.mid, None
+                probe.world.apply(ev)
+                rec["post"] = probe.world.content()
+                rec["fired"] = True
+
+            tap = FsTap(probe.world.path, k, fire)
+            try:
+                with tap:
+                    return orig()
+            except Exception:
+                rec["raised"] = True
+                raise
+            finally:
+                rec["fs_calls"] = list(tap.log)
+                R = tap.content()
+                pre_b = None if rec["pre"] is None else render(rec["pre"])
+                post_b = None if rec["post"] is None else render(rec["post"])
+                if not rec["fired"]:
+                    rec["read"] = "pre"
+                elif R is None or R == pre_b:
+                    rec["read"] = "pre"       # the call had finished reading (or never read): as if the event followed it
+                elif post_b is not None and R == post_b:
+                    rec["read"] = "post"
+                else:
+                    rec["read"] = "torn"
+                probe.incall = rec
 
         def wrap(name, orig):
             if inspect.iscoroutinefunction(orig):
@@ -426,17 +468,41 @@ class Probe:
             else:
                 def f():
                     seen = before(name)
+                    tapped = probe.at is not None and probe.at[0] == name and probe.mid is not None \
+                        and getattr(probe.world, "path", None) is not None
                     try:
-                        v = orig()
+                        v = run_tapped(name, orig) if tapped else orig()
                     except Exception as e:  # noqa: BLE001
+                        if tapped and probe.incall["read"] == "post":
+                            seen = probe.incall["post"]
                         after(name, seen, "exc", type(e).__name__)
                         raise
+                    if tapped and probe.incall["read"] == "post":
+                        seen = probe.incall["post"]     # what the call saw is the file as it was after the event
                     after(name, seen, "ok", v)
                     return v
             return f
 
         src.etag = wrap("etag", o_etag)
         src.load = wrap("load", o_load)
+
+
+_FS_LOAD = []
+
+
+def fs_calls_of_load():
+    """dry run on the implementation under test: the number of file-system calls one load() makes on the policy file."""
+    if not _FS_LOAD:
+        from rbacx.store.file_store import FilePolicySource
+        d = tempfile.mkdtemp(prefix="c10_")
+        try:
+            path = os.path.join(d, "policy.json")
+            with open(path, "wb") as f:
+                f.write(render(["d", 1]))
+            _FS_LOAD.append(max(1, len(fs_calls_of(FilePolicySource(path).load, path))))
+        finally:
+            shutil.rmtree(d, ignore_errors=True)
+    return _FS_LOAD[0]
 
 
 def window_bound(cfg):
@@ -556,7 +622,7 @@ class Setup:
         try:
             if kind[0] == "file":
                 self.tmp = tempfile.mkdtemp(prefix="c10_")
-                self.world = World(c["world"], os.path.join(self.tmp, "policy.json"))
+                self.world = World(c["world"], os.path.join(self.tmp, "policy.json"), bool(fl.get("replace")))
                 from rbacx.store.file_store import FilePolicySource
                 self.src = FilePolicySource(self.world.path, include_mtime_in_etag=bool(kind[1]))
             else:
@@ -634,8 +700,11 @@ def impl_run(c):
                 raise ValueError("impl_run: sequential scripts only: %r" % (cmd,))
             _, force, now, u, mid = cmd[:5]
             how = cmd[5] if len(cmd) > 5 else "async"
+            at = cmd[6] if len(cmd) > 6 else None
             su.ft.now, su.fr.u = float(now), float(u)
             su.probe.mid = mid
+            su.probe.at = tuple(at) if (at and mid is not None and su.world.path is not None) else None
+            su.probe.incall = None
             su.probe.calls = []
             before = {"policy_obj": su.guard.policy, "clears": su.cache.clears, "last_etag": su.r.last_etag,
                       "suppressed_until": su.r.suppressed_until, "n_loaded": len(su.probe.loaded_objs),
@@ -658,9 +727,11 @@ def impl_run(c):
                     raise ValueError(how)
             except Exception as e:  # noqa: BLE001
                 raised = "%s: %s" % (type(e).__name__, e)
-            if su.probe.mid is not None:      # the check never called the source: the change follows it
+            if su.probe.mid is not None:      # the check never called the source (or not the targeted call): the change follows it
                 ev, su.probe.mid = su.probe.mid, None
                 su.world.apply(ev)
+            held_for_load = su.probe.at is not None and su.probe.at[0] == "load"
+            su.probe.at = None
             info = {"raised": raised, "calls": [(n, s, k, (v if (n == "etag" or k == "exc") else pol_id(v))) for n, s, k, v in su.probe.calls],
                     "same_obj": su.guard.policy is before["policy_obj"],
                     "policy_is_last_loaded": bool(su.probe.loaded_objs) and su.guard.policy is su.probe.loaded_objs[-1],
@@ -668,6 +739,10 @@ def impl_run(c):
                     "policy_known": (su.guard.policy is su.p0) or any(su.guard.policy is o for o in su.probe.loaded_objs),
                     "before": {k: v for k, v in before.items() if k != "policy_obj"},
                     "after_content": su.world.content()}
+            if at:
+                info["incall"] = su.probe.incall
+                info["model_form"] = incall_model_form(c, at, su.probe.incall, held_for_load,
+                                                       any(x[0] == "etag" for x in su.probe.calls))
             out["checks"].append(info)
             out["snaps"].append(su.snap(res if raised is None else "raised"))
             out["obs"].append(su.src_obs())
@@ -681,20 +756,77 @@ def impl_run(c):
     return out
 
 
+def incall_model_form(c, at, inc, held_for_load, etag_called):
+    """The model's source calls are atomic with respect to the world.  Where does an event that landed inside a call
+    of the check belong in the model's script?
+       "between" - between etag() and load() of the check (the model's own mid-check event);
+       "before"  - before the check;   "after" - after the check;   None - no counterpart (judged directly only).
+    For the code as it is, a call that had finished reading the file when the event landed behaves as if the event
+    came right after the call; a call that read the file as it was after the event behaves as if the event came
+    right before it - except that an etag() which took its (size, mtime) signature before the event reports the old
+    mtime with the new hash (include_mtime_in_etag) and a torn read hashes / parses bytes of both: no counterpart."""
+    if inc is None:
+        return "between"    # the targeted call was never made (suppressed check / tag unchanged / etag() raised): the
+        #                     event follows the check's last source call, which is where the model's mid event lands
+    if inc["call"] == "etag":
+        if not inc["fired"] or inc["read"] == "pre":
+            return None if (inc["raised"] and inc["fired"]) else "between"
+        if inc["read"] == "post" and not inc["raised"]:
+            return None if c["kind"][1] else "before"
+        return None
+    # load()
+    if not inc["fired"] or inc["read"] == "pre":
+        return "after"
+    if inc["read"] == "post":
+        return "between"
+    return None
+
+
 # --------------------------------------------------------------------------
 # the model side
 # --------------------------------------------------------------------------
-def model_script(script):
-    return [cmd[:5] if cmd[0] == "check" else cmd for cmd in script]
+def model_script(script, out=None):
+    """-> (model script, for every implementation snapshot the index of the model snapshot to compare it with,
+           for every implementation snapshot the index of the model snapshot that carries the check's result)"""
+    ms, mmap, rmap = [], [0], [0]
+    infos = (out or {}).get("checks") or []
+    for ix, cmd in enumerate(script):
+        form = None
+        if cmd[0] == "check" and len(cmd) > 6 and cmd[6] and ix < len(infos) and infos[ix]:
+            form = infos[ix].get("model_form")
+        if cmd[0] != "check":
+            ms.append(cmd)
+            r = len(ms)
+        elif form == "before":
+            ms.append(["ev", cmd[4]])
+            ms.append(cmd[:4] + [None])
+            r = len(ms)
+        elif form == "after":
+            ms.append(cmd[:4] + [None])
+            r = len(ms)
+            ms.append(["ev", cmd[4]])
+        else:
+            ms.append(cmd[:5])
+            r = len(ms)
+        mmap.append(len(ms))
+        rmap.append(r)
+    return ms, mmap, rmap
 
 
-def model_lines(cases):
+def has_no_model(c, out):
+    return any(cmd[0] == "check" and len(cmd) > 6 and cmd[6] and cmd[4] is not None and info is not None
+               and info.get("model_form") is None
+               for cmd, info in zip(c["script"], (out or {}).get("checks") or []))
+
+
+def model_lines(cases, outs=None):
+    outs = outs or [None] * len(cases)
     return [lib.model_call("reload.run", c["kind"], c["cfg"], bool(c["initial_load"]), bool(c["async"]), c["p0"],
-                           c["world"], model_script(c["script"])) for c in cases]
+                           c["world"], model_script(c["script"], o)[0]) for c, o in zip(cases, outs)]
 
 
-def model_run(cases):
-    outs = [lib.dec(x) for x in lib.run_model("reload", model_lines(cases), chunk=400)]
+def model_run(cases, i_outs=None):
+    outs = [lib.dec(x) for x in lib.run_model("reload", model_lines(cases, i_outs), chunk=400)]
     for o, c in zip(outs, cases):
         if o and isinstance(o[0], str):
             raise RuntimeError("model rejected case: %r %r" % (o, c))
@@ -1048,11 +1180,11 @@ class Builder:
             return [["algos", nxt]]
         raise ValueError(sym)
 
-    def check(self, force, mid=None):
+    def check(self, force, mid=None, at=None):
         u = US[self.ui % len(US)] if self.rng is None else self.rng.choice(US)
         self.ui += 1
         how = self.hows[0] if self.rng is None else self.rng.choice(self.hows)
-        self.script.append(["check", force, self.clock, u, mid, how])
+        self.script.append(["check", force, self.clock, u, mid, how] + ([at] if at else []))
         return len(self.script) - 1
 
     def add(self, sym):
@@ -1061,13 +1193,17 @@ class Builder:
         elif sym == "T+":
             self.clock += BIG
         elif sym.startswith(("chk", "frc")):
+            # chk | frc [@e<k> | @l<k>] [~event]: the event lands between etag() and load() of the check, or (file
+            # source) inside its etag() / load() call right after the k-th file-system call that call makes
             head, _, m = sym.partition("~")
+            head, _, where = head.partition("@")
             mid = None
             if m:
                 evs = self.events(m)
                 assert len(evs) == 1, sym
                 mid = evs[0]
-            self.check(head == "frc", mid)
+            at = [{"e": "etag", "l": "load"}[where[0]], int(where[1:])] if (where and mid is not None) else None
+            self.check(head == "frc", mid, at)
         else:
             for ev in self.events(sym):
                 self.script.append(["ev", ev])
@@ -1116,6 +1252,8 @@ KINDS = ([["gen", m] for m in range(4)] + [["file", False], ["file", True], ["ht
 
 
 def flavour_for(kind, rng):
+    if kind[0] == "file":
+        return {"replace": rng.random() < 0.5}
     if kind[0] == "gen":
         return {"exc": rng.choice(["runtime", "os", "value", "timeout", "custom", "key", "json", "fnf"])}
     if kind[0] == "http":
@@ -1167,6 +1305,27 @@ def gen_cases(chk):
             L = rng.choice([3, 4, 4, 5] if not thorough else [4, 4, 5, 5])
             syms = [rng.choice(alpha) for _ in range(L)]
             cases.append(make_case(kind, syms, rng, "sample%d" % L))
+    # 1b. file source: the file changes INSIDE the etag() / load() call of a check, after each file-system call the call
+    #     makes on it (as many as a dry run of the implementation shows, + 1 = right after the call), from several
+    #     reloader / cache states, in place or by rename
+    k_e, k_l = fs_calls_of_etag(), fs_calls_of_load()
+    targets = ["e%d" % k for k in range(1, k_e + 2)] + ["l%d" % k for k in range(1, k_l + 2)]
+    pres = [[], ["chk"], ["touch"], ["chk", "touch"], ["chk", "wnew"], ["chk", "wsame"], ["chk", "T+", "touch"]]
+    evs_in = ["wnew", "touch", "del", "wprev"]
+    posts = [[], ["wprev"], ["chk"]]
+    if thorough:
+        pres += [["wnew", "chk"], ["chk", "del", "wnew"], ["frc", "touch"], ["chk", "chk", "wsame"]]
+        evs_in += ["wbad", "wsame"]
+        posts += [["touch"], ["t+", "chk", "wnew"]]
+    for kind in (["file", False], ["file", True]):
+        for pre in pres:
+            for head in ("chk", "frc"):
+                for tg in targets:
+                    for ev in evs_in:
+                        for post in posts:
+                            cases.append(make_case(kind, pre + ["%s@%s~%s" % (head, tg, ev)] + post, rng, "incall",
+                                                   il=bool(len(cases) % 2), straddle=False,
+                                                   hows=("sync",) if rng.random() < 0.5 else ("async",)))
     # 2. random long histories
     n_long = 4000 if thorough else 600
     for _ in range(n_long):
@@ -1175,6 +1334,9 @@ def gen_cases(chk):
                                   and not (kind[0] == "file" and "fl+" in e)]
         # more checks than events
         alpha = alpha + ["chk"] * 4 + ["T+"] * 2 + ["t+"]
+        if kind[0] == "file":
+            alpha = alpha + ["%s@%s~%s" % (h_, t_, e_) for h_ in ("chk", "chk", "frc") for t_ in targets
+                             for e_ in ("wnew", "touch")]
         L = rng.randint(6, 30)
         cases.append(make_case(kind, [rng.choice(alpha) for _ in range(L)], rng, "long"))
     return cases
@@ -1572,10 +1734,11 @@ def run_impl_many(cases, procs=None):
 
 
 def check_cases(chk, cases, replay=False):
-    m_outs = model_run([c for c in cases if not c.get("stress")])
+    i_outs = run_impl_many(cases)
+    sel = [k for k, c in enumerate(cases) if not c.get("stress")]
+    m_outs = model_run([cases[k] for k in sel], [i_outs[k] for k in sel])
     it = iter(m_outs)
     m_outs = [None if c.get("stress") else next(it) for c in cases]
-    i_outs = run_impl_many(cases)
     for c, out, m_out in zip(cases, i_outs, m_outs):
         key = (json.dumps(c["kind"]), json.dumps(c["cfg"]), c["initial_load"], c["async"], c["p0"],
                json.dumps(c["world"]), json.dumps(c["script"]))
@@ -1606,15 +1769,22 @@ def check_cases(chk, cases, replay=False):
                     if x[2] == "exc":
                         chk.count("exc:%s:%s" % (x[0], x[3]))
         viol = judge(chk, c, out, m_out)
+        inc = [dict(i["incall"], step=k_) for k_, i in enumerate(out["checks"]) if i and i.get("incall")]
         for clause, detail in viol[:2]:
-            chk.violation(clause, c, impl={"detail": detail, "snaps": out["snaps"]}, model=m_out)
+            chk.violation(clause, c, impl=dict({"detail": detail, "snaps": out["snaps"]},
+                                               **({"event_inside_a_source_call": inc} if inc else {})), model=m_out)
         if viol:
             continue
         # correspondence
-        if len(out["snaps"]) != len(m_out):
+        if has_no_model(c, out):
+            chk.count("incall:no-model-counterpart (judged directly only)")
+            continue
+        _ms, mmap, rmap = model_script(c["script"], out)
+        if len(out["snaps"]) != len(mmap) or mmap[-1] != len(m_out) - 1:
             chk.corr_break("number of snapshots", c, impl=len(out["snaps"]), model=len(m_out), theorems=THEOREMS)
             continue
-        for ix, (i_s, m_s) in enumerate(zip(out["snaps"], m_out)):
+        m_sel = [m_out[j] if rmap[q] == j else [m_out[rmap[q]][0]] + list(m_out[j][1:]) for q, j in enumerate(mmap)]
+        for ix, (i_s, m_s) in enumerate(zip(out["snaps"], m_sel)):
             bad = compare_snap(i_s, m_s)
             i_obs, m_obs = out["obs"][ix], m_s[10]
             if i_obs is not None and (i_obs[0] != tag_str(m_obs[0]) or i_obs[1] != m_obs[1]):
@@ -1709,7 +1879,9 @@ def run(chk):
                 "+0.5, clock +128}: every history up to length 2 (thorough: 3) for each of 13 source configurations "
                 "(custom content-tag / version-tag / no tag / non-str tag, sync or async; file with and without mtime "
                 "in the tag; HTTP with and without server ETags; S3 etag / version-id / checksum with 3 preferences), "
-                "seeded samples of length 3-5 and random histories up to length 30, each followed by a stable tail of "
+                "seeded samples of length 3-5 and random histories up to length 30, for the file source also histories in which "
+                "the file changes inside the etag()/load() call of a (forced) check after each of that call's file-system "
+                "calls, each followed by a stable tail of "
                 "three unforced checks on which convergence is judged; initial_load on/off, guard built from the "
                 "source's document or from an unrelated one, six back-off configurations, checks run through "
                 "check_and_reload_async, check_and_reload (no loop / under a running loop) and poll_once; plus every "
@@ -1723,8 +1895,13 @@ def run(chk):
                 "non-trivial = at least one check and (a world event or a primed tag); distinct = distinct "
                 "(source configuration, reloader configuration, initial world, script)")
     chk.assumptions = [
-        "each source call (etag(), load()) is one atomic step with respect to the world (FilePolicySource's stat+hash, "
-        "S3's several HEADs are not split)",
+        "in the MODEL each source call (etag(), load()) is one atomic step with respect to the world (S3's several HEADs "
+        "are not split).  For FilePolicySource this is tested, not assumed: family 'incall' lets the file change after "
+        "every file-system call (os.stat, open, each read; counted on a dry run of the implementation, so added or "
+        "reordered calls are covered) inside the etag() / load() call of a check, in place or by rename; the clauses "
+        "are judged on the implementation, and the history is compared with the model where it has a counterpart (call "
+        "had read the old bytes = event right after the call; read the new bytes = event right before it; old "
+        "signature + new hash with include_mtime, or a torn read: none)",
         "faults are Exception subclasses (BaseException is not caught by the reloader and not modelled)",
         "every write/touch of the policy file gets a fresh mtime (same size + same mtime_ns rewrites belong to C16)",
         "the polling thread (_run_loop) is modelled only as 'calls check repeatedly'; network and S3 are fakes",
